@@ -345,8 +345,6 @@ enum Obstacle {
     NotExportable,
     /// the target was written earlier in this history (by another type of the same file) and is now a directory
     ExistingTargetIsDir,
-    /// ... or has disappeared
-    ExistingTargetGone,
 }
 
 const OBSTACLES: &[Obstacle] = &[
@@ -356,7 +354,6 @@ const OBSTACLES: &[Obstacle] = &[
     Obstacle::AboveRoot,
     Obstacle::NotExportable,
     Obstacle::ExistingTargetIsDir,
-    Obstacle::ExistingTargetGone,
     Obstacle::ExistingTargetIsDir,
 ];
 
@@ -446,7 +443,8 @@ pub fn c17(args: &Args, reg: &[TypeEntry], log: &mut Log) {
                     // directories created on the way are legitimately there afterwards
                     cleanup.push(Cleanup::RemoveDir(full));
                 }
-                Obstacle::ExistingTargetIsDir | Obstacle::ExistingTargetGone => {
+                // (a registered file that merely disappeared is not an obstacle: it is written again from scratch)
+                Obstacle::ExistingTargetIsDir => {
                     let Some(rel) = root_rel.clone() else { break };
                     let full = w.root.join(&rel);
                     let ident = (reg[op.ty].ident)();
@@ -458,13 +456,9 @@ pub fn c17(args: &Args, reg: &[TypeEntry], log: &mut Log) {
                     }
                     let bytes = std::fs::read(&full).unwrap();
                     std::fs::remove_file(&full).unwrap();
-                    if obstacle == Obstacle::ExistingTargetIsDir {
-                        std::fs::create_dir(&full).unwrap();
-                        cleanup.push(Cleanup::Restore(full.clone(), bytes));
-                        cleanup.push(Cleanup::RemoveDir(full));
-                    } else {
-                        cleanup.push(Cleanup::Restore(full, bytes));
-                    }
+                    std::fs::create_dir(&full).unwrap();
+                    cleanup.push(Cleanup::Restore(full.clone(), bytes));
+                    cleanup.push(Cleanup::RemoveDir(full));
                 }
                 Obstacle::ParentIsFile => {
                     let Some(rel) = root_rel.clone() else { break };
